@@ -1132,6 +1132,12 @@ ares_status_t ares_dns_write_buf(const ares_dns_record_t *dnsrec,
     goto done;
   }
 
+  /* No transport can carry a DNS message of more than 65535 bytes.  This also
+   * catches any RR whose RDLENGTH did not fit its 16 bit field. */
+  if (ares_buf_len(buf) - orig_len > 65535) {
+    status = ARES_EBADQUERY;
+  }
+
 done:
   ares_llist_destroy(namelist.names);
   if (status != ARES_SUCCESS) {
